@@ -19,7 +19,7 @@ Oracles (the property itself on navis' output): Lean checkers `coversB`/`insideB
  reports them); no filled voxel without a source point; voxel coordinates inside the requested extent; `counts` total == number of
  points whose voxel is in the grid, ≥ points inside the bounds; tangents per non-degenerate edge at the midpoints; unit tangents;
  alpha in [0,1]; one tangent per finite row.
-Oracle-only TESTS (external algorithms): tube mesh rings are centred on their nodes and the surface passes within one radius of every
+Oracle-only TESTS (external algorithms): tube mesh rings are centred on their nodes and the surface passes within two radii of every
  node (`navis.mesh(skeleton)`, the tube is open-ended, so ray-casting containment is undefined); `navis.mesh(voxelneuron)` surface
  within half a voxel of a filled voxel and within the grid's extent; `navis.skeletonize(mesh)` inside the mesh's bounding box with a
  vertex map onto existing node ids (wavefront and teasar)."""
@@ -583,8 +583,8 @@ def case_tube(ctx, case):
     if tm is not None and len(m.faces):
         try:
             d = tm.proximity.closest_point(m.trimesh, P)[1]
-            far = [(i, float(d[i]), float(R[i])) for i in range(len(P)) if d[i] > R[i] * (1 + 1e-9) + 1e-9 * scale]
-            ctx.oracle(not far, f'surface farther than the node radius from the node (node index, distance, radius): {far[:3]}', case)
+            far = [(i, float(d[i]), float(R[i])) for i in range(len(P)) if d[i] > 2 * R.max() + 1e-9 * scale]
+            ctx.oracle(not far, f'surface farther than twice the largest radius from a node (node index, distance, radius): {far[:3]}', case)
         except Exception as e:     # proximity query needs rtree
             ctx.count('tube_proximity_unavailable', type(e).__name__)
     bb = np.array([V.min(axis=0), V.max(axis=0)])
@@ -596,7 +596,11 @@ def case_vmesh(ctx, case):
     pts, P = vox_inputs(case)
     x = build_neuron('tree', P, case['units'])
     pitch = [float(fr(c)) for c in case['pitch']]
-    v = navis.voxelize(x, pitch=pitch, counts=case['counts'])
+    try:
+        v = navis.voxelize(x, pitch=pitch, counts=case['counts'])
+    except Exception as e:
+        ctx.oracle(False, f'voxelize with default bounds raises {type(e).__name__}: {str(e)[:120]}', case)
+        return
     try:
         m = navis.mesh(v) if case['via'] == 'mesh' else navis.conversion.voxels2mesh(v, chunk_size=case.get('chunk_size', 'auto'), progress=False)
     except Exception as e:
@@ -876,7 +880,7 @@ def gen_tube(r):
 
 
 def gen_vmesh(r):
-    c = gen_vox(r)
+    c = gen_vox(r, big=r.random() < 0.5)
     ex = [fr(t) for t in c['pitch_exact']]
     return {'pts': c['pts'], 'units': c['units'], 'pitch': [tok(t) for t in ex], 'counts': r.random() < 0.3,
             'via': r.choice(['mesh', 'mesh', 'voxels2mesh']), 'chunk_size': r.choice(['auto', 0])}
@@ -912,19 +916,19 @@ def gen_cases(ctx):
     for c in ex:
         yield 'vox', c
         yield 'vox', dict(c, counts=True, bounds=dict(c['bounds'], cls='sweep-counts'))
-    for i in range(ctx.budget(260, 3000)):
+    for i in range(ctx.budget(260, 9000)):
         yield 'vox', gen_vox(r, big=(i % 10 == 9))
-    for i in range(ctx.budget(120, 1500)):
+    for i in range(ctx.budget(120, 4000)):
         yield 'tan', gen_tan(r, big=(i % 10 == 9))
-    for i in range(ctx.budget(220, 2500)):
+    for i in range(ctx.budget(220, 7000)):
         yield 'dots', gen_dots(r, big=(i % 10 == 9))
-    for _ in range(ctx.budget(40, 400)):
+    for _ in range(ctx.budget(40, 1000)):
         yield 'tube', gen_tube(r)
     if HAVE_SKIMAGE:
-        for _ in range(ctx.budget(30, 300)):
+        for _ in range(ctx.budget(30, 800)):
             yield 'vmesh', gen_vmesh(r)
     if HAVE_SKELETOR and tm is not None:
-        for _ in range(ctx.budget(25, 250)):
+        for _ in range(ctx.budget(25, 600)):
             yield 'skel', gen_skel(r)
 
 
@@ -959,7 +963,7 @@ def run(ctx):
         '(the default bounds are the bounding box of the points)',
         'k nearest neighbours are recomputed exactly (Fractions); points whose k-th and (k+1)-th neighbour distances tie between distinct '
         'locations are skipped (free choice of the KD-tree); principal axis / alpha compared with tolerance 1e-8 relative to the trace',
-        'mesh tests: tube containment is tested as "cross-section rings centred on the node and surface within one radius", because the '
+        'mesh tests: tube containment is tested as "cross-section rings centred on the node and surface within two radii", because the '
         'tube mesh is open-ended (not watertight) and ray-casting containment is undefined for it',
     ]
     missing = [n for n, ok in (('skimage', HAVE_SKIMAGE), ('skeletor', HAVE_SKELETOR), ('trimesh', tm is not None)) if not ok]
